@@ -427,7 +427,7 @@ func goKey(v string) [5]int {
 func c17Pad(t *testing.T) {
 	const check = "C17.pad"
 	res := verifrt.NewResult(check)
-	res.Rule = "padVersions on random duplicate-free canonical semver lists (releases and prereleases, 0-25 entries, any order) x padding parameters 0-8 x prerelease pattern lists: the result contains every input version, is sorted by semver precedence and has no duplicates; never panics. distinct = distinct (list, padding) pairs"
+	res.Rule = "padVersions on random semver lists without equal-precedence duplicates (some entries with build metadata or in vM.N shorthand) (releases and prereleases, 0-25 entries, any order) x padding parameters 0-8 x prerelease pattern lists: the result contains every input version, is sorted by semver precedence and has no duplicates; never panics. distinct = distinct (list, padding) pairs"
 	n := verifrt.Scale(2000, 200000)
 	for i := 0; i < n; i++ {
 		if !verifrt.WantCase(check, i) {
@@ -441,8 +441,24 @@ func c17Pad(t *testing.T) {
 			if rnd.Intn(3) == 0 {
 				v += verifrt.Pick(rnd, []string{"-pre.1", "-pre.2", "-pre.10", "-rc.1", "-alpha", "-0.3.7"})
 			}
-			if !seen[v] {
-				seen[v] = true
+			// real version strings need not be canonical: build metadata
+			// ("+incompatible") and the shorthands vM.N / vM are valid and must
+			// come out as they went in
+			canon := v
+			switch rnd.Intn(12) {
+			case 0:
+				v += "+incompatible"
+			case 1:
+				if !strings.Contains(v, "-") && strings.HasSuffix(v, ".0") {
+					v = strings.TrimSuffix(v, ".0")
+					res.Hit("shorthand-version")
+				}
+			}
+			if v != canon {
+				res.Hit("non-canonical-version")
+			}
+			if !seen[canon] {
+				seen[canon] = true
 				vs = append(vs, v)
 			}
 		}
@@ -484,7 +500,7 @@ func c17Pad(t *testing.T) {
 			res.Sample(map[string]any{"versions": vs, "padding": fmt.Sprintf("%+v", pad), "out": out})
 		}
 	}
-	res.Require("padded")
+	res.Require("padded", "non-canonical-version")
 	if err := res.Write(); err != nil {
 		t.Fatal(err)
 	}
